@@ -250,6 +250,10 @@ func readJournal(path string) (done []caseOutcome, open *openCase) {
 			if open != nil {
 				open.Ev = r.Ev
 				open.CPU = r.CPU
+			} else if n := len(done); n > 0 && done[n-1].I == r.I {
+				// the budget monitor fired while the case was finishing: it is still the culprit
+				open = &openCase{I: r.I, Ev: r.Ev, Input: done[n-1].Input, CPU: r.CPU}
+				done = done[:n-1]
 			}
 		}
 	}
